@@ -175,7 +175,10 @@ class DataLoggerRun:
             sub = ch.choose("cfg.subdiv", [0, 0, 30, 600])
             if self.forced.get("bulk"):
                 sub = 0
-            ds = DSM.DataSet("coll", f"ds{i}", "", f"ds{i}", fm[fmt], sub, types, md)
+            # (the file name may contain a dot, e.g. a version number taken from the metadata)
+            fname = f"ds{i}" + ch.choose("cfg.fname_tail", ["", "", "_v1.5", ".part"])
+            ds = DSM.DataSet("coll", f"ds{i}", "", fname, fm[fmt], sub, types, md)
+            ds.verif_fname = fname
             self.dc.add_data_set(ds)
             self.sets.append((ds, fmt, types, sub))
             self.expected[ds.name] = []
@@ -196,7 +199,8 @@ class DataLoggerRun:
                 fmt2 = "raw"
             elif self.high_ids and fmt2 == "quicklogger":
                 fmt2 = "json"
-            ds2 = DSM.DataSet("coll", old.name, "", old.name, fm[fmt2], sub, types, md)
+            ds2 = DSM.DataSet("coll", old.name, "", getattr(old, "verif_fname", old.name), fm[fmt2], sub, types, md)
+            ds2.verif_fname = getattr(old, "verif_fname", old.name)
             if how == "remove_add":
                 self.dc.rm_data_set(old.name)
             self.dc.add_data_set(ds2)
@@ -299,7 +303,7 @@ class DataLoggerRun:
         elif t == 8:
             d = cd.MDF_FAILED_MESSAGE()
             d.dest_mod_id = n % 100
-            d.time_of_failure = float(n)
+            d.time_of_failure = float(n) if n % 5 else float("nan")     # (NaN is a legal value of a float field)
             d.msg_header.msg_type = n
         else:
             d = cd.MDF_DISCONNECT()
@@ -473,12 +477,13 @@ class DataLoggerRun:
         d = os.path.join(self.tmp, subdir)
         ext = ds.formatter_cls.ext
         files = []
-        first = os.path.join(d, f"{ds.name}{ext}")
+        base = getattr(ds, "verif_fname", ds.name)
+        first = os.path.join(d, f"{base}{ext}")
         if os.path.exists(first):
             files.append(first)
         i = 1
         while True:
-            p = os.path.join(d, f"{ds.name}_{i:04d}{ext}")
+            p = os.path.join(d, f"{base}_{i:04d}{ext}")
             if not os.path.exists(p):
                 break
             files.append(p)
